@@ -128,6 +128,63 @@ func (r *scRender) absLoc(l lspLoc) string {
 	return fmt.Sprintf("occ:%s@%d:%d", o.Role, o.Line, o.Col)
 }
 
+// judgeDef decides one definition answer (abstract locations) against TLC's binding for occurrence o:
+// ok = the ideal answer; otherwise dev names the listed deviation that predicts exactly this answer ("" = none).
+func judgeDef(tc *scCase, o *occ, got []string) (ok bool, dev string, want []string, kind string) {
+	switch o.Role {
+	case "use", "write":
+		if o.B > 0 {
+			want = []string{fmt.Sprintf("decl:%d", o.B)}
+			kind = "local"
+		} else {
+			for _, g := range gdefIDs(tc, o.Name) {
+				want = append(want, fmt.Sprintf("decl:%d", g))
+			}
+			kind = "global"
+			if len(want) == 0 {
+				kind = "unbound"
+			}
+		}
+	case "decl", "gdef":
+		want = []string{fmt.Sprintf("decl:%d", o.Decl)}
+		kind = "self"
+		if o.Role == "gdef" {
+			for _, g := range gdefIDs(tc, o.Name) {
+				want = append(want, fmt.Sprintf("decl:%d", g))
+			}
+		}
+	}
+	if len(want) == 0 {
+		ok = len(got) == 0
+	} else if len(got) == 1 {
+		for _, w := range want {
+			if got[0] == w {
+				ok = true
+			}
+		}
+	}
+	if ok {
+		return
+	}
+	for d, b := range o.Alt {
+		if b > 0 && len(got) == 1 && got[0] == fmt.Sprintf("decl:%d", b) {
+			dev = d
+		}
+		if b == 0 {
+			gd := gdefIDs(tc, o.Name)
+			if len(gd) == 0 && len(got) == 0 {
+				dev = d
+			}
+			for _, g := range gd {
+				if len(got) == 1 && got[0] == fmt.Sprintf("decl:%d", g) {
+					dev = d
+				}
+			}
+		}
+	}
+	return
+}
+
 func c05Judge(c *Ctx, j *Job, res *proto.Result) {
 	d := j.Data.(*c05Data)
 	key := string(j.Raw)
